@@ -80,8 +80,10 @@ def _eval_slow_generic(f, x_data, out=None):
             for i in range(D-2, 0, -1):
                 accum[i] = numpy.sum(accum[:i] * x_data[i:0:-1], axis=0)
             accum[0] = 0.
-        # Add the contribution of this summation term.
-        y_data[1:] += f(x_data[0], n=d) * accum / float(math.factorial(d))
+        # Add the contribution of this summation term. (x - x_0)**d starts at order d:
+        # the vanishing lower orders are not touched, 0 * inf (a derivative that overflows
+        # near the border of the domain) would turn them into nan
+        y_data[d:] += f(x_data[0], n=d) * accum[d-1:] / float(math.factorial(d))
 
     return y_data
 
